@@ -273,6 +273,13 @@ class Evaluator:
         self.decisions = list(decisions or [])  # forced outcomes of undecided branches, in evaluation order
         self._decision_index = 0
         self.decision_log: list[str] = []
+        # private helpers of the same class are part of the function (format byte computed by a helper, ...)
+        from . import inline
+
+        try:
+            self.node = inline.expand(repo, func)[0] if getattr(func, "cls", None) is not None else func.node
+        except Exception:  # pylint: disable=broad-except
+            self.node = func.node
 
     def _decide(self, text):
         if self._decision_index < len(self.decisions):
@@ -285,13 +292,18 @@ class Evaluator:
     # ---------------------------------------------------------------- statements
     def run(self):
         try:
-            self._block(self.func.node.body)
+            self._block(self.node.body)
         except _Return as r:
             return r.value
         return None
 
     def _block(self, stmts):
         for st in stmts:
+            if st.__class__.__name__ == "InlineBlock":
+                if any(x.__class__.__name__ == "LeaveBlock" for x in ast.walk(st)):
+                    raise Unsupported("inlined helper with early exits")
+                self._block(st.body)
+                continue
             self._stmt(st)
 
     def _stmt(self, st):
